@@ -607,6 +607,9 @@ func c08Fixed() []c08Case {
 		// the cached init error of generation 1 must not answer the crash of a later generation
 		{Prefix: []c08Item{{Kind: "initerr"}}, Suffix: c08Suffix{Kind: "crash"}},
 		{Prefix: []c08Item{{Kind: "initerr.idle"}}, Suffix: c08Suffix{Kind: "crash"}},
+		// the recorded first fault of an earlier generation (an extension's) must not name the fault of a later one (the runtime's)
+		{Prefix: []c08Item{{Kind: "ext.exiterr", Exts: []string{"I"}}}, Suffix: c08Suffix{Kind: "crash"}},
+		{Prefix: []c08Item{{Kind: "ext.initerr", Exts: []string{"IS"}}, {Kind: "ok"}}, Suffix: c08Suffix{Kind: "crash", Exts: []string{"I"}}},
 		{Prefix: []c08Item{{Kind: "initerr.idle", Exts: []string{"IS"}}, {Kind: "ok"}}, Suffix: c08Suffix{Kind: "timeout", Exts: []string{"I"}}},
 		// barrier counts of an earlier generation: internal extension polls before the runtime, after a generation without extensions
 		{Prefix: []c08Item{{Kind: "ok"}}, Suffix: c08Suffix{Kind: "internal.first"}},
